@@ -10,6 +10,11 @@ package main
 //
 //   - per remedy and aligned window: #requests let through (NoOpAction)  <= quota
 //        plugin:over-release:per-remedy-window
+//     Histories contain metrics collections (event "scrape": the plugin's
+//     requests_in_queue gauge callback ran).  The property says nothing about
+//     them, so they are no event of any rule: every bound holds across them
+//     unchanged (the last collection before an over-release is named in the hit
+//     for the reader).
 //   - per remedy: a request is admitted to wait only while fewer than its queue
 //     size wait                                             plugin:size-bound
 //   - immediate refusal only when >= queue size requests of the remedy wait
@@ -103,6 +108,7 @@ func pmonitor(k *PCase) []c.Hit {
 	}
 	reqs := map[int]*pmreq{}
 	reqGroup := map[int]*pgroup{}
+	lastScrape := int64(-1)
 
 	best := func(g *pgroup) *pmreq {
 		var b *pmreq
@@ -120,7 +126,7 @@ func pmonitor(k *PCase) []c.Hit {
 			add(sigOverRelease,
 				fmt.Sprintf("remedy %q (quota %d per %d s): at most %d requests are let through in the window [%d,%d)",
 					k.Remedies[rem].Name, g.quota, g.w/sec, g.quota, win*g.w, (win+1)*g.w),
-				fmt.Sprintf("request %d is #%d let through in that window (at %d)", id, g.rel[win], at))
+				fmt.Sprintf("request %d is #%d let through in that window (at %d)%s", id, g.rel[win], at, scrapeNote(lastScrape, win*g.w)))
 		}
 	}
 	closePass := func(g *pgroup) {
@@ -194,6 +200,8 @@ func pmonitor(k *PCase) []c.Hit {
 				add(sigVerdict, fmt.Sprintf("request %d of remedy %q goes through the remedy's queue", e.ID, r.Name),
 					fmt.Sprintf("OnRequest returned %s/%d at once, before queue.NewRequest", e.Kind, e.Status))
 			}
+		case "scrape":
+			lastScrape = e.At
 		case "resp":
 			if e.Kind != "noop" {
 				add(sigVerdict, "OnResponse returns NoOpAction, nil", "it returned something else")
@@ -268,4 +276,11 @@ func pmonitor(k *PCase) []c.Hit {
 	}
 	closeAll()
 	return hits
+}
+
+func scrapeNote(last, winStart int64) string {
+	if last < winStart {
+		return ""
+	}
+	return fmt.Sprintf("; a metrics collection (requests_in_queue gauge callback) ran in that window at %d", last)
 }
